@@ -204,6 +204,11 @@ func lt(a, b Term) Term  { return mk(SBool, "<", a, b) }
 func ge(a, b Term) Term  { return mk(SBool, ">=", a, b) }
 func gt(a, b Term) Term  { return mk(SBool, ">", a, b) }
 
+// eidx is the position of element i of a slice with offset off inside its backing array. It is an
+// uninterpreted function with the defining axiom idx(a,b) = a+b, so that quantified facts about
+// slice elements have arithmetic-free triggers.
+func eidx(off, i Term) Term { return mk(SInt, "idx", off, i) }
+
 // slice accessors
 func sBase(s Term) Term { return mk(SInt, "s_base", s) }
 func sOff(s Term) Term  { return mk(SInt, "s_off", s) }
@@ -487,6 +492,8 @@ func (u *Universe) strConst(s string) Term {
 const preludeText = `(declare-datatypes ((Slice 0)) (((mk_slice (s_base Int) (s_off Int) (s_len Int) (s_cap Int)))))
 (define-fun godiv ((x Int) (y Int)) Int (ite (>= x 0) (ite (> y 0) (div x y) (- (div x (- y)))) (ite (> y 0) (- (div (- x) y)) (div (- x) (- y)))))
 (define-fun gomod ((x Int) (y Int)) Int (- x (* y (godiv x y))))
+(declare-fun idx (Int Int) Int)
+(assert (forall ((a! Int) (b! Int)) (! (= (idx a! b!) (+ a! b!)) :pattern ((idx a! b!)))))
 (declare-fun strlen (Int) Int)
 (assert (= (strlen 0) 0))
 (declare-fun typeof (Int) Int)
